@@ -309,8 +309,9 @@ Proof.
   - unfold RcvInv, rcv_n; tcb_simpl. rewrite Hss, Hfc. cbn [b2z]. rewrite Z.sub_0_r.
     fold base rn.
     assert (En : wsub (wadd rn accept) base = n + accept).
-    { subst n. rewrite !wsub_spec, wadd_spec. rewrite wsub_spec in Hd, Hle.
-      unfold u32, M32, SEQ_BOUND in *. lia. }
+    { assert (Hn : n = (rn - base) mod M32) by (subst n; apply wsub_spec).
+      rewrite !wsub_spec, wadd_spec.
+      clear - Hn R5 R4 Hacc Hl Hb. unfold u32, M32, SEQ_BOUND in *. lia. }
     rewrite En. splits; try assumption.
     + rewrite zlen_app. subst piece. rewrite zlen_firstn. lia.
     + apply wadd_u32.
@@ -318,9 +319,7 @@ Proof.
     + lia.
     + rewrite app_assoc, R6. exact Hpiece.
     + discriminate.
-  - eapply rstage_ok_trans; [apply rstage_set_rcv_nxt|].
-    eapply rstage_ok_trans; [apply rstage_set_in_text|].
-    unfold rstage_ok, snd_frame; tcb_simpl. splits; auto.
+  - unfold rstage_ok, snd_frame; tcb_simpl. splits; auto.
     intros Ho. apply Forall_plain_snoc; [assumption|apply ack_hdr_plain].
   - reflexivity.
 Qed.
@@ -342,8 +341,8 @@ Proof.
   { intros Hfc. destruct (text_core_inv pv D t h text Hwf HR Hss Hfc Hw Hne Hseg (Hfacts Hne Hfc))
       as (t' & E & A & B & C).
     exists t'. splits; auto. intros; congruence. }
-  destruct (st t) eqn:Est; try discriminate Hss; try (apply Hcore; reflexivity);
-    (exists t; splits; auto; [apply rstage_ok_refl|intros; congruence]).
+  destruct (st t) eqn:Est; try (cbn in Hss; discriminate Hss); try (apply Hcore; reflexivity);
+    (exists t; splits; auto using rstage_ok_refl; intros; congruence).
 Qed.
 
 (* ---------- FIN ---------- *)
@@ -396,7 +395,7 @@ Proof.
   set (t1 := set_oneshot t0 _).
   assert (S1 : st t1 = st t) by reflexivity.
   assert (RS1 : rstage_ok t t1).
-  { eapply rstage_ok_trans; [apply rstage_set_rcv_nxt|]. subst t1 t0.
+  { subst t1 t0.
     unfold rstage_ok, snd_frame; tcb_simpl. splits; auto.
     intros Ho. apply Forall_plain_snoc; [assumption|apply ack_hdr_plain]. }
   (* any final state s' with the FIN consumed and the same closedness is fine *)
@@ -410,24 +409,24 @@ Proof.
     replace (F + 1 - 1) with F by lia.
     assert (HnF : rcv_n pv t = F).
     { unfold rcv_n. fold base rn. destruct (fin_consumed (st t)) eqn:Efc.
-      - apply R7. reflexivity.
+      - destruct (R7 eq_refl) as [_ Hn]. unfold rcv_n in Hn. rewrite Efc in Hn. exact Hn.
       - cbn [b2z]. rewrite (Hn0 eq_refl). lia. }
     rewrite HnF in R6.
     splits; try assumption; try lia; auto. apply wadd_u32. }
   rewrite S1.
-  destruct (st t) eqn:Est; try discriminate Hss.
-  - (* SynReceived *) apply Hfinal; try reflexivity. apply stage_rstage, stage_set_st. rewrite S1, Est. reflexivity.
-  - (* Established *) apply Hfinal; try reflexivity. apply stage_rstage, stage_set_st. rewrite S1, Est. reflexivity.
+  destruct (st t) eqn:Est; try (cbn in Hss; discriminate Hss).
+  - (* SynReceived *) apply Hfinal; try reflexivity. apply stage_rstage, stage_set_st. rewrite S1. reflexivity.
+  - (* Established *) apply Hfinal; try reflexivity. apply stage_rstage, stage_set_st. rewrite S1. reflexivity.
   - (* FinWait1 *)
     destruct (is_fin_acked t1); apply Hfinal; try reflexivity.
-    + eapply rstage_ok_trans; apply stage_rstage; [apply (stage_set_st t1 TimeWait); rewrite S1, Est; reflexivity|apply stage_set_tw].
-    + apply stage_rstage, stage_set_st. rewrite S1, Est. reflexivity.
+    + eapply rstage_ok_trans; apply stage_rstage; [apply (stage_set_st t1 TimeWait); rewrite S1; reflexivity|apply stage_set_tw].
+    + apply stage_rstage, stage_set_st. rewrite S1. reflexivity.
   - (* FinWait2 *)
     apply Hfinal; try reflexivity.
-    eapply rstage_ok_trans; [apply stage_rstage, (stage_set_st t1 TimeWait); rewrite S1, Est; reflexivity|].
+    eapply rstage_ok_trans; [apply stage_rstage, (stage_set_st t1 TimeWait); rewrite S1; reflexivity|].
     eapply rstage_ok_trans; apply stage_rstage; [apply stage_set_tw|apply stage_set_rto].
-  - (* CloseWait *) apply Hfinal; try reflexivity; [apply rstage_ok_refl|cbn; rewrite Est; reflexivity].
-  - (* Closing *) apply Hfinal; try reflexivity; [apply rstage_ok_refl|cbn; rewrite Est; reflexivity].
-  - (* LastAck *) apply Hfinal; try reflexivity; [apply rstage_ok_refl|cbn; rewrite Est; reflexivity].
-  - (* TimeWait *) apply Hfinal; try reflexivity; [apply stage_rstage, stage_set_tw|cbn; rewrite Est; reflexivity].
+  - (* CloseWait *) apply Hfinal; try reflexivity; [apply rstage_ok_refl|cbn [set_time_wait st]; rewrite S1; reflexivity].
+  - (* Closing *) apply Hfinal; try reflexivity; [apply rstage_ok_refl|cbn [set_time_wait st]; rewrite S1; reflexivity].
+  - (* LastAck *) apply Hfinal; try reflexivity; [apply rstage_ok_refl|cbn [set_time_wait st]; rewrite S1; reflexivity].
+  - (* TimeWait *) apply Hfinal; try reflexivity; [apply stage_rstage, stage_set_tw|cbn [set_time_wait st]; rewrite S1; reflexivity].
 Qed.
